@@ -15,3 +15,21 @@ Proof.
   apply Z.leb_gt in Ex.
   unfold tick in Et. destruct (pend k1); inversion Et; subst; cbn; lia.
 Qed.
+
+Lemma lru_get_fresh : forall key c k v c' k',
+  lru_step (Get key) c k = Ok (RAns v, c', k') -> now k' < a_exp v.
+Proof.
+  intros key c k v c' k'. unfold lru_step.
+  destruct (dget (l_dict c) key) as [i|]; [|discriminate].
+  destruct (unlink (l_store c) i) as [s1| |]; cbn [bind]; try discriminate.
+  destruct (getn s1 i) as [n| |]; cbn [bind]; try discriminate.
+  destruct (n_val n) as [v0|]; [|discriminate].
+  destruct (tick k) as [t k1] eqn:Et.
+  destruct (a_exp v0 <=? t) eqn:Ex.
+  - destruct (drop_node c s1 i); cbn [bind]; discriminate.
+  - destruct (link_after s1 i sentinel) as [s2| |]; cbn [bind]; try discriminate.
+    destruct (getn s2 i) as [n2| |]; cbn [bind]; try discriminate.
+    destruct (set_hits s2 i (n_hits n2 + 1)) as [s3| |]; cbn [bind]; try discriminate.
+    intros H; inversion H; subst. apply Z.leb_gt in Ex.
+    unfold tick in Et. destruct (pend k); inversion Et; subst; cbn; lia.
+Qed.
